@@ -267,7 +267,7 @@ pub fn worker<P: Prop>(tier: Tier, seed: u64, idx: usize, seed_idx: usize, cases
                 Ok(())
             }
             Some(v) => {
-                if v.prop != P::ID {
+                if !crate::enga::owns(v.prop, P::ID) {
                     if !is_frozen {
                         let k = format!("{}:{}", v.prop, v.sig);
                         *st.foreign.entry(k.clone()).or_insert(0) += 1;
